@@ -107,13 +107,13 @@ Proof.
 Qed.
 
 (* substitution at a level does not change names or order *)
-Lemma keys_inherit plain specs own : keys (inherit_defaults plain specs own) = keys own.
+Lemma keys_inherit plain attrs own : keys (inherit_defaults plain attrs own) = keys own.
 Proof. unfold inherit_defaults, keys. rewrite map_map. reflexivity. Qed.
 
 Lemma keys_map_snd {V W} (g : V -> W) (l : list (string * V)) : keys (map (fun kv => (fst kv, g (snd kv))) l) = keys l.
 Proof. unfold keys. rewrite map_map. reflexivity. Qed.
 
-Lemma keys_step specs lv : keys (step_level specs lv) = add_new (keys specs) (keys (own_specs (l_kw_only lv) (l_items lv))).
+Lemma keys_step attrs specs lv : keys (step_level attrs specs lv) = add_new (keys specs) (keys (own_specs (l_kw_only lv) (l_items lv))).
 Proof.
   unfold step_level. rewrite (keys_map_snd (subst_desc (l_bound lv))).
   now rewrite keys_dict_update, keys_inherit.
@@ -125,10 +125,10 @@ Theorem collected_names levels :
   keys (collect levels) = fold_left (fun seen lv => add_new seen (keys (own_specs (l_kw_only lv) (l_items lv)))) levels [].
 Proof.
   unfold collect.
-  assert (G : forall specs, keys (fold_left step_level levels specs)
+  assert (G : forall attrs specs, keys (collect_from attrs specs levels)
               = fold_left (fun seen lv => add_new seen (keys (own_specs (l_kw_only lv) (l_items lv)))) levels (keys specs)).
-  { induction levels as [|lv r IH]; intros specs; simpl; [reflexivity|]. rewrite IH, keys_step. reflexivity. }
-  apply (G []).
+  { induction levels as [|lv r IH]; intros attrs specs; simpl; [reflexivity|]. rewrite IH, keys_step. reflexivity. }
+  apply (G [] []).
 Qed.
 
 (* keyword-only fields are moved behind the positional ones; relative order is kept in both groups *)
